@@ -443,6 +443,14 @@ func Encode(w io.Writer, img image.Image, opts *EncoderOptions) error {
 		return fmt.Errorf("webp: image dimension %dx%d exceeds maximum %d", imgW, imgH, MaxDimension)
 	}
 
+	// *image.RGBA stores alpha-premultiplied colours. Convert a non-opaque one to
+	// non-premultiplied NRGBA up front, with exactly color.NRGBAModel's arithmetic,
+	// so that the direct-pixel fast paths below produce the same file as the
+	// generic image.Image path does for the same colours.
+	if rgba, ok := img.(*image.RGBA); ok && validRGBA(rgba, imgW, imgH) && !rgba.Opaque() {
+		img = unpremultiplyRGBA(rgba)
+	}
+
 	if opts.Lossless {
 		hasMetadata := len(opts.ICC) > 0 || len(opts.EXIF) > 0 || len(opts.XMP) > 0
 		if !hasMetadata {
@@ -463,6 +471,35 @@ func Encode(w io.Writer, img image.Image, opts *EncoderOptions) error {
 		return err
 	}
 	return writeRIFF(w, fourcc, bitstream, alphaData, imgW, imgH, opts)
+}
+
+// unpremultiplyRGBA returns the non-premultiplied copy of src (origin at 0,0),
+// pixel for pixel identical to color.NRGBAModel.Convert(src.At(x, y)).
+func unpremultiplyRGBA(src *image.RGBA) *image.NRGBA {
+	b := src.Bounds()
+	w, h := b.Dx(), b.Dy()
+	dst := image.NewNRGBA(image.Rect(0, 0, w, h))
+	for y := 0; y < h; y++ {
+		s := src.Pix[(y+b.Min.Y-src.Rect.Min.Y)*src.Stride+(b.Min.X-src.Rect.Min.X)*4:]
+		d := dst.Pix[y*dst.Stride:]
+		for x := 0; x < w; x++ {
+			i := x * 4
+			a := uint32(s[i+3])
+			switch a {
+			case 0:
+				// transparent: NRGBAModel yields {0,0,0,0} (dst is zeroed)
+			case 255:
+				d[i], d[i+1], d[i+2], d[i+3] = s[i], s[i+1], s[i+2], 255
+			default:
+				// (c*0x101 * 0xffff) / (a*0x101) >> 8, as image/color does.
+				d[i] = uint8((uint32(s[i]) * 0xffff / a) >> 8)
+				d[i+1] = uint8((uint32(s[i+1]) * 0xffff / a) >> 8)
+				d[i+2] = uint8((uint32(s[i+2]) * 0xffff / a) >> 8)
+				d[i+3] = uint8(a)
+			}
+		}
+	}
+	return dst
 }
 
 // encodeLossyWithAlpha encodes the image as a VP8 lossy bitstream and,
